@@ -300,6 +300,46 @@ func (c *Check[C]) Rapid(t *testing.T, n int, gen func(t *rapid.T) C) {
 	col.mu.Unlock()
 }
 
+// Survey (development aid, VERIF_SURVEY=1): run n cases without failing and
+// print failure buckets with the smallest example of each.
+func (c *Check[C]) Survey(t *testing.T, n int, gen func(t *rapid.T) C, size func(C) int, bucket func(error) string) {
+	flag.Set("rapid.checks", strconv.Itoa(n))
+	type ex struct {
+		n    int
+		size int
+		c    C
+		msg  string
+	}
+	buckets := map[string]*ex{}
+	rapid.Check(t, func(rt *rapid.T) {
+		v := gen(rt)
+		if err := c.Eval(v); err != nil {
+			k := bucket(err)
+			e := buckets[k]
+			if e == nil {
+				e = &ex{size: 1 << 30}
+				buckets[k] = e
+			}
+			e.n++
+			if sz := size(v); sz < e.size {
+				e.size, e.c, e.msg = sz, v, err.Error()
+			}
+		}
+	})
+	keys := make([]string, 0, len(buckets))
+	for k := range buckets {
+		keys = append(keys, k)
+	}
+	sort.Slice(keys, func(i, j int) bool { return buckets[keys[i]].n > buckets[keys[j]].n })
+	for _, k := range keys {
+		e := buckets[k]
+		raw, _ := json.Marshal(e.c)
+		fmt.Printf("SURVEY %s bucket=%q n=%d\n   case=%s\n   msg=%s\n", c.Name, k, e.n, raw, strings.ReplaceAll(e.msg, "\n", "\n      "))
+	}
+}
+
+func Surveying() bool { return os.Getenv("VERIF_SURVEY") != "" }
+
 // One evaluates a single enumerated case (for exhaustive sub-checks).
 func (c *Check[C]) One(t *testing.T, v C) bool {
 	t.Helper()
